@@ -66,9 +66,9 @@ def corr(ctx):
 def convert_lib(doc, nd, at, drop):
     return SVG.fromstring(doc).topicosvg(ndigits=nd, allow_text=at, drop_unsupported=drop).tostring()
 
-def convert_cli(doc, at, drop):
+def convert_cli(doc, at, drop, clip=False):
     env = dict(os.environ, PYTHONPATH='/repo/src', PYTHONHASHSEED='0')
-    cmd = ['/venv/bin/python', '-m', 'picosvg.picosvg'] + (['--allow_text'] if at else []) + (['--drop_unsupported'] if drop else [])
+    cmd = ['/venv/bin/python', '-m', 'picosvg.picosvg'] + (['--allow_text'] if at else []) + (['--drop_unsupported'] if drop else []) + (['--clip_to_viewbox'] if clip else [])
     p = subprocess.run(cmd, input=doc.encode(), capture_output=True, env=env, timeout=120)
     if p.returncode != 0: return None
     return p.stdout.decode()
@@ -77,7 +77,7 @@ UNSUP_RE = re.compile(r'BadElement|MissingElement')
 def judge(doc, nd, at, drop, cli=False):
     """None if fine, else (law, expected, observed)"""
     try:
-        out = convert_cli(doc, at, drop) if cli else convert_lib(doc, nd, at, drop)
+        out = convert_cli(doc, at, drop, clip=(cli == 'clip')) if cli else convert_lib(doc, nd, at, drop)
     except ValueError as e:
         if drop and re.search(r'BadElement: \S+( |,|$)(?!reuses)', str(e)) and any('reuses id' not in part for part in str(e).split('BadElement:')[1:]):
             return ('with drop_unsupported the call does not fail because of unsupported elements', 'normal return', {'raised': str(e)[:300]})
@@ -103,7 +103,7 @@ def search(ctx, broken, disagreements):
         doc = docgen.random_doc(rng, **kw) if i % 5 != 4 else docgen.group_soup(rng)
         nd = rng.randint(0, 6) if i % 2 else 3
         at, drop = rng.random() < 0.35, rng.random() < 0.35
-        cli = (i % 20 == 7)
+        cli = True if i % 20 == 7 else ('clip' if i % 20 == 17 else False)      # the command line tool, also with its --clip_to_viewbox step
         n += 1
         for f in features(doc): dist[f] = dist.get(f, 0) + 1
         dist[f'ndigits={nd}'] = dist.get(f'ndigits={nd}', 0) + 1
@@ -115,6 +115,13 @@ def search(ctx, broken, disagreements):
     return found, {'evaluations': n, 'distribution': dist}
 
 def matches_known(v, entry):
+    pat = entry.get('signature', {}).get('pattern')
+    doc = v['input'].get('doc', '') if isinstance(v.get('input'), dict) else ''
+    viol = json.dumps(jsonable(v.get('observed')))
+    if pat == 'non_finite_opacity':
+        return bool(re.search(r'opacity[=:]\s*"?\s*[+-]?(nan|inf)', doc, re.I)) and 'opacity' in viol
+    if pat == 'stop_foreign_attribute':
+        return bool(re.search(r'<stop\b[^>]*\b\w+:href=', doc)) and 'on stop' in viol
     return False
 
 def replay(ctx, w):
